@@ -701,7 +701,8 @@ func HashSetIndex(vm *Thread, set *HashSetOfValue, val value.Value) (int, value.
 		// when we reach the start index
 		// all slots are checked
 		if index == startIndex {
-			return -1, value.Undefined
+			// there is no empty slot, a deleted slot (if any) can still be reused
+			return deletedIndex, value.Undefined
 		}
 	}
 }
